@@ -91,6 +91,9 @@ QTag(t) == CASE t = "c" -> "qc" [] t = "cn" -> "qcn" [] t = "pc" -> "qpc" [] t =
 MapRes(m, r) == CASE m = "tag" -> <<[r EXCEPT !.t = PTag(r.t)]>>
                   [] m = "dup" -> <<[r EXCEPT !.t = PTag(r.t)], [r EXCEPT !.t = QTag(r.t)]>>
                   [] m = "drop" -> IF r.ids = <<>> THEN <<>> ELSE <<[r EXCEPT !.t = PTag(r.t)]>>
+                  \* a stateful mapping element appends how many values it has seen: 1, every cell is
+                  \* mapped by its own deep copy of the sequence
+                  [] m = "seen" -> <<[r EXCEPT !.t = PTag(r.t), !.ids = Append(r.ids, 1)]>>
 MapSem(m, h, edges) == ZipCells([idx \in Cells(edges) |-> MapRes(m, h[idx])], Cells(edges))
 
 \* nested-sequence form of a histogram's bins (JSON)
